@@ -68,14 +68,15 @@ def _needs_alphabet_mutation(rep):
     ops = rep.get("ops", [])
     by_id = {op["id"]: op for op in ops}
     hit = False
-    for op in ops:
+    res = rep.get("results", [])
+    for pos, op in enumerate(ops):
         if op["op"] == "mutate":
             src = by_id.get(op["h"])
             if src is None or src["op"] not in ("get_alphabet", "observe", "alpha_decode"):
                 return False
             hit = True
-        elif op["op"] == "set_table" and "why" in op:
-            return False
+        elif op["op"] in ("set_table", "set_preset") and res[pos].startswith("('err'"):
+            return False      # a *failed* update is part of it: that is another story
     return hit
 
 
@@ -90,7 +91,7 @@ def finish(engine, prop, tier, seed, runs, res, wall, write_evidence=True, diges
         return 2 if harness else 0
 
     viols = [r["violation"] for r in good if r.get("violation")]
-    os.makedirs(os.path.join(env.VERIF, "replays"), exist_ok=True)
+    os.makedirs(env.REPLAY_DIR, exist_ok=True)
     lines = []
     seen_known = {}
     for r in good:
@@ -100,7 +101,7 @@ def finish(engine, prop, tier, seed, runs, res, wall, write_evidence=True, diges
                 lines.append("KNOWN-FINDING: property=%s %s" % (prop, k["what"]))
             seen_known[k["id"]] += 1
     for rep in viols:
-        path = os.path.join(env.VERIF, "replays", "%s-%d-%d.json" % (prop, seed, rep["run"]))
+        path = os.path.join(env.REPLAY_DIR, "%s-%d-%d.json" % (prop, seed, rep["run"]))
         with open(path, "w") as f:
             json.dump(rep, f, indent=1, sort_keys=True)
         lines.append("VIOLATION property=%s replay=%s" % (prop, path))
